@@ -22,9 +22,15 @@ import time
 from fractions import Fraction
 
 VERIF = os.path.dirname(os.path.dirname(os.path.abspath(__file__)))
-COQ = os.path.join(VERIF, 'coq')
 BUILD = os.path.join(VERIF, 'build')
 REPO = os.environ.get('SC3_REPO', '/repo')
+COQ_SRC = os.path.join(VERIF, 'coq')
+if os.path.realpath(REPO) == os.path.realpath('/repo'):
+    COQ = COQ_SRC
+else:
+    # checks against another tree (SC3_REPO=<scratch worktree>) get their own copy of the Coq build
+    # directory, so that their regenerated coq/gen files cannot race with checks running against /repo
+    COQ = os.path.join(BUILD, 'coq_alt', hashlib.sha1(os.path.realpath(REPO).encode()).hexdigest()[:12])
 PY = os.environ.get('SC3_PY', '/venv/bin/python')
 NPROC = int(os.environ.get('VERIF_JOBS', '0')) or min(16, os.cpu_count() or 4)
 
@@ -59,10 +65,21 @@ def sh(cmd, timeout=600, cwd=None, env=None, input=None):
         return 124, (out or '') + '\n[timeout after %ss]' % timeout
 
 
+def sync_alt_coq():
+    """Bring the alternative build directory up to date with /verif/coq (sources and compiled files)."""
+    if COQ == COQ_SRC:
+        return
+    os.makedirs(COQ, exist_ok=True)
+    sh(['rsync', '-a', '--delete', '--exclude', 'gen/', COQ_SRC + '/', COQ + '/'])
+    os.makedirs(os.path.join(COQ, 'gen'), exist_ok=True)
+
+
 class Lock:
     """flock on build/.lock: serialises regenerate+make between concurrent checks."""
     def __init__(self, name='coq'):
         os.makedirs(BUILD, exist_ok=True)
+        if COQ != COQ_SRC:
+            name += '-' + os.path.basename(COQ)
         self.path = os.path.join(BUILD, '.lock-' + name)
 
     def __enter__(self):
@@ -168,7 +185,7 @@ class Ctx:
         self.tier = tier
         self.seed = seed
         self.rng = random.Random(seed * 1000003 + int(pid[1:]))
-        self.work = os.path.join(BUILD, 'work', pid)
+        self.work = os.path.join(BUILD, 'work', pid if COQ == COQ_SRC else pid + '-' + os.path.basename(COQ))
         os.makedirs(self.work, exist_ok=True)
         self.proof_ok = None
         self.proof_log = ''
@@ -420,9 +437,20 @@ def write_replay(pid, fail, idx):
     return path
 
 
+def clean_work(ctx):
+    """Remove the previous run's shard files (disk space)."""
+    for fn in os.listdir(ctx.work):
+        if fn.endswith(('.v', '.vo', '.vok', '.vos', '.glob', '.aux', '.json')) or fn.startswith('.'):
+            try:
+                os.remove(os.path.join(ctx.work, fn))
+            except OSError:
+                pass
+
+
 def run_check(pid, tier, seed, mod):
     t0 = time.time()
     ctx = Ctx(pid, tier, seed)
+    clean_work(ctx)
     failures = []
     known_lines = []
 
@@ -432,8 +460,9 @@ def run_check(pid, tier, seed, mod):
         failures.append(Failure('gate', 'forbidden construct in development: ' + '; '.join(hits[:5])))
 
     # 1+2. regenerate, re-prove (under lock: shared .vo files)
-    theorems = theorems_of(pid)
     with Lock():
+        sync_alt_coq()
+        theorems = theorems_of(pid)
         terrs = regenerate(ctx)
         ensure_makefile()
         rc, out = make(['props/%s.vo' % pid], timeout=getattr(mod, 'MAKE_TIMEOUT', 1500))
